@@ -33,6 +33,7 @@ type world struct {
 	violKey  string
 	orcs     []*recOrc
 	accepted map[string]string // record id -> connection, for every ReloadableSink.Accept that returned
+	disk     []string          // queued records written to the on-disk queue by shut-down pipeline sets, not yet taken over
 	markerA  bool
 	doneA    bool
 	doneB    bool
@@ -78,6 +79,7 @@ type recOrc struct {
 	shutdown  bool
 	sinks     []*recSink
 	delivered []string
+	tookOver  []string // queued chunks found on disk when this pipeline set was created
 }
 
 type recSink struct {
@@ -108,6 +110,9 @@ func (d *recOrc) Shutdown() {
 		d.w.violate("double-shutdown", "%s shut down twice", d.name)
 	}
 	d.shutdown = true
+	// like the real pipelines, a pipeline set writes what it still has queued to the on-disk queue when it is shut down;
+	// a pipeline set created later scans the disk at creation and takes those chunks over
+	d.w.disk = append(d.w.disk, d.delivered...)
 }
 
 func recID(r *base.LogRecord) string { return r.Fields[0] }
@@ -262,8 +267,10 @@ func drive(w *world) explore.Verdict {
 		w.ev("initiateReload: ok")
 		return func() base.Orchestrator {
 			d := &recOrc{w: w, name: fmt.Sprintf("D%d", len(w.orcs)+1)}
+			d.tookOver = w.disk
+			w.disk = nil
 			w.orcs = append(w.orcs, d)
-			w.ev("%s created", d.name)
+			w.ev("%s created, takes over %d queued records", d.name, len(d.tookOver))
 			return d
 		}, nil
 	}
@@ -342,6 +349,27 @@ func drive(w *world) explore.Verdict {
 			out = append(out, id+":dup")
 		default:
 			out = append(out, id+":"+delivered[id][0])
+		}
+	}
+	// queued chunks of the old pipelines are taken over: whatever a replaced pipeline set left on disk must have been
+	// found by a later one (only the final Shutdown may leave the queue for the next start)
+	lastName := w.orcs[len(w.orcs)-1].name
+	for _, d := range w.orcs {
+		if d.name == lastName {
+			continue
+		}
+		for _, id := range d.delivered {
+			taken := false
+			for _, later := range w.orcs {
+				for _, t := range later.tookOver {
+					if t == id {
+						taken = true
+					}
+				}
+			}
+			if !taken {
+				w.violate("queued-chunks-not-taken-over", "record %s was queued by %s, which a reload replaced, and no later pipeline set took its queue over (the new set was created before the old one had written its queue)", id, d.name)
+			}
 		}
 	}
 	okAfter, failAfter := reloadCounts(true)
